@@ -1,0 +1,18 @@
+// SPDX-FileCopyrightText: 2026 The Pion community <https://pion.ly>
+// SPDX-License-Identifier: MIT
+
+//go:build verif
+
+package rtpbuffer
+
+// VerifInUse returns the number of ring slots that hold a packet and the ring size
+// (verification harness only).
+func (r *RTPBuffer) VerifInUse() (inUse, size int) {
+	for _, p := range r.packets {
+		if p != nil {
+			inUse++
+		}
+	}
+
+	return inUse, len(r.packets)
+}
